@@ -13,6 +13,9 @@ HEADER = pysrc.HEADER.replace("From CG Require Import Model.Loop.",
 # self.freq is one of four strings: an enumeration (Model/Recur.v)
 FREQ = {"FREQ": ("freq_eqb", {"daily": "Daily", "weekly": "Weekly", "monthly": "Monthly", "yearly": "Yearly"})}
 
+SINK_EFFECTS = {"self._sink.add": dict(var="self_sink", args=["IVL"], update="(sl_add {0} {var})"),
+                "self._sink.remove": dict(var="self_sink", args=["IVL"], update="(sl_remove {0} {var})")}
+
 SPECS = [
     dict(name="g_finite_start", file="calgebra/interval.py", cls="Interval", func="finite_start", kind="expr",
          params=[("self", "IVL")], ret="Z"),
@@ -93,6 +96,23 @@ SPECS = [
          attrs={("TD", "days"): ("td_days", "Z")},
          binops={("DATE", "-", "DATE"): ("date_sub", "TD"), ("DT", "+", "TD"): ("dt_add", "DT")},
          skip_branches=["self.freq == 'monthly'", "self.freq == 'yearly'"]),
+    # ---- cache.py.  self._sink (a MemoryTimeline holding only static intervals) is the state variable
+    # self_sink : its SortedList, with the library models sl_add / sl_remove / fetch_static of Model/.
+    dict(name="g_cache_purge_sink", file="calgebra/cache.py", cls="CachedTimeline", func="_purge_sink", kind="proc",
+         params=[("self_sink", "LIST"), ("start", "Z"), ("end", "Z")], state=["self_sink"],
+         calls={"self._sink.fetch": dict(coq="fetch_static", pre=["self_sink"], args=["OZ", "OZ", "B"], fetch=True,
+                                         ret="LIST")},
+         effects=SINK_EFFECTS),
+    # the clipping loop of _fill_gap (the statements up to and including the `for`); the lazy key
+    # validation (self._get_key may only raise) is a declared no-op on the modelled state
+    dict(name="g_cache_fill_gap_clip", file="calgebra/cache.py", cls="CachedTimeline", func="_fill_gap", kind="proc",
+         stop_after_loop=True, tyvars=["KEYS"], types={"KEYS": "KEYS"},
+         params=[("self_sink", "LIST"), ("self_key_validated", "B"), ("self_key_fields", "O:KEYS"),
+                 ("source_fetch", FETCH_T), ("gap_start", "Z"), ("gap_end", "Z")],
+         state=["self_sink", "self_key_validated"],
+         selfattrs={"_key_validated": ("self_key_validated", "B"), "_key_fields": ("self_key_fields", "O:KEYS")},
+         calls={"self.source.fetch": ("source_fetch", ["OZ", "OZ", "B"], "LIST")},
+         effects=dict(SINK_EFFECTS, **{"self._get_key": dict(var=None, args=["IVL"])})),
 ]
 
 
